@@ -1,74 +1,12 @@
-import PysnarkModel.Lemmas.PyTotalOps3
-import PysnarkModel.Lemmas.IteTag
+import PysnarkModel.Lemmas.PyTotalArr
 /-!
-# C05 at program level, totality: selection, one instruction, the whole run
+# C05 at program level, totality: one instruction, the whole run
 -/
 set_option linter.unusedSimpArgs false
 namespace Pysnark
 
 section
 variable {s : St}
-
-/-- `LinCombBool(x, False)` on a 0/1 value returns (no constraint, no look at the guard) -/
-theorem mkBool_false_total {x : LinComb} (hb : x.value = 0 ∨ x.value = 1) : mkBool x false s = .ok (x, s) := by
-  unfold mkBool
-  have : isBooleanValue x.value = true := isBooleanValue_iff.mpr hb
-  simp [this]
-
-/-- the selection arithmetic does not raise on scalars; when both branches are booleans the result
-is handed to `LinCombBool(ret, False)`, which accepts it because condition and branches are 0/1 -/
-theorem iteAux_total {c : LinComb} {n : Nat} {t f : Val} (ht : t.isSc = true) (hf : f.isSc = true)
-    (hc : c.value = 0 ∨ c.value = 1) (hbt : t.isLcb = true → t.num = 0 ∨ t.num = 1)
-    (hbf : f.isLcb = true → f.num = 0 ∨ f.num = 1) :
-    Ok (iteAux c (n+1) t f) s := by
-  have key : Ok (do let d ← subV t f; let pr ← mulLV c d; let ret ← addV f pr; iteTag t f ret : M Val) s := by
-    obtain ⟨d, h1⟩ := subV_total (s := s) ht hf
-    obtain ⟨-, sd, -, nd, -⟩ := subV_sc ht hf h1
-    refine Ok.bind h1 (Ok.bind' (mulLV_total sd) ?_)
-    intro pr s1 h2
-    obtain ⟨-, z, rfl, vz⟩ := mulLV_sc sd h2
-    obtain ⟨v, h3⟩ := addV_total (s := s1) hf (b := .lc z) rfl
-    refine Ok.bind h3 ?_
-    obtain ⟨-, -, -, nv, hlc⟩ := addV_sc hf (b := .lc z) rfl h3
-    by_cases hbb : bothLcb t f = true
-    · cases t <;> cases f <;> simp only [bothLcb, reduceCtorEq] at hbb
-      obtain ⟨w, rfl⟩ := Val.isLc_iff.mp (hlc rfl)
-      rw [iteTag_bb]
-      have hw : w.value = 0 ∨ w.value = 1 := by
-        have e : w.value = _ := nv
-        rw [e, Val.num_lc, vz, nd]
-        have h1 := hbt rfl; have h2 := hbf rfl
-        simp only [Val.num_lcb] at h1 h2 ⊢
-        rcases hc with h | h <;> rcases h1 with h1 | h1 <;> rcases h2 with h2 | h2 <;> simp [h, h1, h2]
-      exact Ok.bind (mkBool_false_total hw) (Ok.pure _ _)
-    · rw [iteTag_other _ (by simpa using hbb)]
-      exact Ok.pure _ _
-  unfold iteAux
-  split
-  · exact Ok.pure _ _
-  · cases t <;> simp only [Val.isSc, Bool.false_eq_true] at ht <;>
-      exact Ok.bind (a := f) (s1 := s) rfl key
-
-theorem depth_sc {t : Val} (ht : t.isSc = true) : t.depth = 1 := by
-  cases t <;> simp only [Val.isSc, Bool.false_eq_true] at ht <;> simp [Val.depth]
-
-theorem ifThenElse_total {cond t f : Val} {same : Bool}
-    (h : same = true ∨ (∃ c, cond = .int c ∧ (c = 0 ∨ c = 1)) ∨
-      (∃ c, cond = .lcb c ∧ (c.value = 0 ∨ c.value = 1) ∧ t.isSc = true ∧ f.isSc = true ∧
-        (t.isLcb = true → t.num = 0 ∨ t.num = 1) ∧ (f.isLcb = true → f.num = 0 ∨ f.num = 1))) :
-    Ok (ifThenElse cond same t f) s := by
-  unfold ifThenElse
-  split
-  · exact Ok.pure _ _
-  · rename_i hsh
-    rcases h with h | ⟨c, rfl, hc⟩ | ⟨c, rfl, hcb, ht, hf, hbt, hbf⟩
-    · simp [h] at hsh
-    · simp only
-      have : (c != 0 && c != 1) = false := by rcases hc with rfl | rfl <;> rfl
-      simp only [this, Bool.false_eq_true, if_false]
-      exact Ok.pure _ _
-    · simp only [depth_sc ht]
-      exact iteAux_total ht hf hcb hbt hbf
 
 theorem getRegs_total {regs : List Val} {pregs : List PyVal} (hR : ValRefL regs pregs) :
     ∀ {is : List Nat} {pvs : List PyVal}, pyGets pregs is = .ok pvs →
@@ -102,11 +40,15 @@ theorem getReg_some {regs : List Val} {i : Nat} {x : Val} {s : St} (h : regs[i]?
 theorem pyGet_some {pregs : List PyVal} {i : Nat} {w : PyVal} (h : pregs[i]? = some w) :
     pyGet pregs i = .ok w := by unfold pyGet; rw [h]
 
+theorem secretAt_some {regs : List Val} {i : Nat} {y : Val} (h : regs[i]? = some y) :
+    secretAt regs i = y.isLc := by
+  unfold secretAt; rw [h]; cases y <;> rfl
+
 /-- **one instruction does not raise** inside the fragment, the coverage table and the domain -/
 theorem step_py_total {st : St} {regs : List Val} {frames : List GuardBak} {pregs : List PyVal}
     {bl : Nat} {i : Instr} {r : PyVal × List PyVal × Nat} (hR : PyRel st regs frames pregs bl)
     (hx : i.pyExcl st regs = none) (hgap : i.pyGap regs = none)
-    (hpy : pyStep bl pregs i = .ok r) (hd : pyDom st.p bl pregs i = true) :
+    (hpy : pyStep bl pregs i = .ok r) (hd : pyDom st.p bl pregs regs i = true) :
     ∃ r', step regs frames i st = .ok r' := by
   have hP := hR.inv.prime
   have hk := hR.ok
@@ -162,7 +104,7 @@ theorem step_py_total {st : St} {regs : List Val} {frames : List GuardBak} {preg
         obtain ⟨na, -, -⟩ := hvx.sc sa
         obtain ⟨nb, -, -⟩ := hvy.sc sb
         simp only [pyStep, pyGet_some hpx, pyGet_some hpy'] at hpy
-        simp only [pyDom, hpx, hpy', na, nb] at hd
+        simp only [pyDom, hpx, hpy', na, nb, secretAt_some hb] at hd
         cases hm : pyBin op px py with
         | error e => simp [hm] at hpy
         | ok pr =>
@@ -204,7 +146,7 @@ theorem step_py_total {st : St} {regs : List Val} {frames : List GuardBak} {preg
         | ok pr =>
           unfold step; simp only
           exact Ok.bind (getReg_some hs) (Ok.bind has
-            (Ok.bind' (callMeth_total hg hP hvx hrel hgap hm hd) (fun _ _ _ => Ok.pure _ _)))
+            (Ok.bind' (callMeth_total hk hP hvx hrel hgap hm hd) (fun _ _ _ => Ok.pure _ _)))
   case ite c t f =>
     simp only [Instr.pyGap] at hgap
     cases hc : regs[c]? with
@@ -342,6 +284,22 @@ theorem step_py_total {st : St} {regs : List Val} {frames : List GuardBak} {preg
                   refine Ok.bind (getReg_some ha) (Ok.bind (getReg_some hkk) ?_)
                   simp only [arrayGet, hj, hv]
                   exact Ok.bind (a := v) (s1 := st) rfl (Ok.pure _ _)
+          | lc it =>
+            obtain ⟨px, hpx, hvx⟩ := hR.regs.get ha
+            obtain ⟨pk, hpk, hvk⟩ := hR.regs.get hkk
+            obtain ⟨ys, rfl, hys⟩ := valRef_list_iff.mp hvx
+            rw [valRef_lc_iff.mp hvk] at hpk
+            simp only [Instr.pyExcl, ha, hkk] at hx
+            have hall : xs.all Val.isIntLike = true := by
+              cases hq : xs.all Val.isIntLike with
+              | true => rfl
+              | false => simp [hq] at hx
+            simp only [pyDom, secretAt_some hkk, Val.isLc, Bool.not_true, Bool.false_or, pyDomIdx, hpx, hpk,
+              PyVal.num?_int, Bool.and_eq_true, decide_eq_true_eq, ← hys.length] at hd
+            unfold step; simp only
+            refine Ok.bind (getReg_some ha) (Ok.bind (getReg_some hkk) ?_)
+            exact Ok.bind' (arrayGet_total hk hP (fun v hv => List.all_eq_true.mp hall v hv) hd.1.1 hd.1.2 hd.2)
+              (fun _ _ _ => Ok.pure _ _)
           | _ => simp [ha, hkk] at hgap
         | _ => simp [ha, hkk] at hgap
   case aset a k w =>
@@ -373,6 +331,22 @@ theorem step_py_total {st : St} {regs : List Val} {frames : List GuardBak} {preg
                 refine Ok.bind (getReg_some ha) (Ok.bind (getReg_some hkk) (Ok.bind (getReg_some hw) ?_))
                 simp only [arraySet, hj]
                 exact Ok.bind (a := xs.set q wv) (s1 := st) rfl (Ok.pure _ _)
+            | lc it =>
+              obtain ⟨px, hpx, hvx⟩ := hR.regs.get ha
+              obtain ⟨pk, hpk, hvk⟩ := hR.regs.get hkk
+              obtain ⟨ys, rfl, hys⟩ := valRef_list_iff.mp hvx
+              rw [valRef_lc_iff.mp hvk] at hpk
+              simp only [Instr.pyExcl, ha, hkk, hw] at hx
+              have hall : xs.all Val.isIntLike = true ∧ wv.isIntLike = true := by
+                cases hq : (xs.all Val.isIntLike && wv.isIntLike) with
+                | true => simpa using hq
+                | false => simp [hq] at hx
+              simp only [pyDom, secretAt_some hkk, Val.isLc, Bool.not_true, Bool.false_or, pyDomIdx, hpx, hpk,
+                PyVal.num?_int, Bool.and_eq_true, decide_eq_true_eq, ← hys.length] at hd
+              unfold step; simp only
+              refine Ok.bind (getReg_some ha) (Ok.bind (getReg_some hkk) (Ok.bind (getReg_some hw) ?_))
+              exact Ok.bind' (arraySet_total hk hP (fun v hv => List.all_eq_true.mp hall.1 v hv) hall.2
+                hd.1.1 hd.1.2 hd.2) (fun _ _ _ => Ok.pure _ _)
             | _ => simp [ha, hkk, hw] at hgap
           | _ => simp [ha, hkk, hw] at hgap
 
@@ -380,7 +354,7 @@ theorem step_py_total {st : St} {regs : List Val} {frames : List GuardBak} {preg
 theorem runAux_py_total : ∀ (is : List Instr) (k : Nat) (regs : List Val) (frames : List GuardBak) (st : St)
     (pregs : List PyVal) (bl kk : Nat) (p : Int), PyRel st regs frames pregs bl → st.p = p →
     pyFragAux is regs frames st = true → pySupAux is regs frames st = true →
-    pyDomAux p is bl pregs = true → (∃ r, pyRunAux is kk bl pregs = .ok r) →
+    pyDomAux p is bl pregs regs frames st = true → (∃ r, pyRunAux is kk bl pregs = .ok r) →
     (runAux is k regs frames st).err = none
   | [], k, regs, frames, st, pregs, bl, kk, p, _, _, _, _, _, _ => rfl
   | i :: is, k, regs, frames, st, pregs, bl, kk, p, hR, hp, hf, hs, hd, ⟨r, hrun⟩ => by
@@ -396,7 +370,7 @@ theorem runAux_py_total : ∀ (is : List Instr) (k : Nat) (regs : List Val) (fra
       simp only [hpy] at hrun hd
       simp only [Bool.and_eq_true, Option.isNone_iff_eq_none] at hf hs hd
       obtain ⟨⟨⟨v, regs', frames'⟩, st'⟩, hstep⟩ := step_py_total hR hf.1 hs.1 hpy (hp ▸ hd.1)
-      simp only [hstep] at hf hs ⊢
+      simp only [hstep] at hf hs hd ⊢
       obtain ⟨pv2, pregs2, bl2, hpy2, hR', hp'⟩ := step_py hR hf.1 hstep
       rw [hpy] at hpy2
       simp only [Except.ok.injEq, Prod.mk.injEq] at hpy2
@@ -406,7 +380,7 @@ theorem runAux_py_total : ∀ (is : List Instr) (k : Nat) (regs : List Val) (fra
 /-- **Program-level totality.**  See `C05_program_total` in `Props/C05.lean` for the reading. -/
 theorem run_py_total (p : Nat) (hp : p.Prime) (bl res : Nat) (prog : List Instr)
     (hfrag : PyFragment (St.init p bl res) prog) (hsup : PySupported (St.init p bl res) prog)
-    (hdom : InDomain p bl prog) (pregs : List PyVal) (hpy : pyRun bl prog = .ok pregs) :
+    (hdom : InDomain (St.init p bl res) prog) (pregs : List PyVal) (hpy : pyRun bl prog = .ok pregs) :
     (run (St.init p bl res) prog).err = none := by
   unfold run
   unfold PyFragment at hfrag
